@@ -1160,41 +1160,36 @@ conf.registerGlobalValue(conf.supybot.commands, 'disabled',
 class DisabledCommands(object):
     def __init__(self):
         self.d = CanonicalNameDict()
+        self.everywhere = CanonicalNameSet()
         for name in conf.supybot.commands.disabled():
             if '.' in name:
                 (plugin, command) = name.split('.', 1)
-                if command in self.d:
-                    if self.d[command] is not None:
-                        self.d[command].add(plugin)
-                else:
-                    self.d[command] = CanonicalNameSet([plugin])
+                self.add(command, plugin)
             else:
-                self.d[name] = None
+                self.add(name)
 
     def disabled(self, command, plugin=None):
+        if command in self.everywhere:
+            return True
         if command in self.d:
-            if self.d[command] is None:
-                return True
-            elif plugin in self.d[command]:
+            if plugin in self.d[command]:
                 return True
         return False
 
     def add(self, command, plugin=None):
         if plugin is None:
-            self.d[command] = None
+            self.everywhere.add(command)
         else:
             if command in self.d:
-                if self.d[command] is not None:
-                    self.d[command].add(plugin)
+                self.d[command].add(plugin)
             else:
                 self.d[command] = CanonicalNameSet([plugin])
 
     def remove(self, command, plugin=None):
         if plugin is None:
-            del self.d[command]
+            self.everywhere.remove(command)
         else:
-            if self.d[command] is not None:
-                self.d[command].remove(plugin)
+            self.d[command].remove(plugin)
 
 class BasePlugin(object):
     def __init__(self, *args, **kwargs):
